@@ -40,6 +40,7 @@ func V_fresh(x any) bool { v_no("fresh"); return true }
 func V_elemsfresh(x any) bool { v_no("elemsfresh"); return true }
 func V_fresherThan(x any, y any) bool { v_no("fresherThan"); return true }
 func V_sameslice(x, y any) bool { v_no("sameslice"); return true }
+func V_samebase(x, y any) bool { v_no("samebase"); return true }
 func V_sameref(x, y any) bool { v_no("sameref"); return true }
 func V_distinctbase(x, y any) bool { v_no("distinctbase"); return true }
 func V_comparable(x any) bool { return x == nil || v_reflect.TypeOf(x).Comparable() }
